@@ -362,48 +362,51 @@ Definition first_zone (agencies : list agency) : string := match agencies with a
 
 (* the three places where the Go code ranges over a map (services, shapes, the per-trip stop-time sort) are parameters:
    ParseStatic itself is the instance below; Model/Purity.v instantiates them with iteration-order adversaries (C06) *)
-Definition parse_static_gen (services_of' : list (string * service) -> list service)
+(* a provider of opened tables: file name -> the file's required columns -> what opening it gives.  ParseStatic's provider
+   opens archive members (open_file); whole-result theorems are stated for every provider *)
+Definition tables := string -> list string -> opened.
+Definition parse_tables_gen (services_of' : list (string * service) -> list service)
     (parse_shapes' : list string -> list (list string) -> list shape)
     (parse_stop_times' : list stop -> list strip -> list string -> list (list string) -> list strip)
-    (inherit : bool) (ms : list (string * string)) : outcome static :=
-  match open_file "agency.txt" ["agency_name"; "agency_url"; "agency_timezone"] ms with
+    (inherit : bool) (tbl : tables) : outcome static :=
+  match tbl "agency.txt" ["agency_name"; "agency_url"; "agency_timezone"] with
   | Absent => Err "no agency.txt" | Bad => Err "agency.txt"
   | Rows h1 r1 =>
     let '(agencies, warns) := parse_agencies h1 r1 in
     let zone := first_zone agencies in
-    match open_file "routes.txt" ["route_id"; "route_type"] ms with
+    match tbl "routes.txt" ["route_id"; "route_type"] with
     | Absent => Err "no routes.txt" | Bad => Err "routes.txt"
     | Rows h2 r2 =>
       let routes := parse_routes agencies h2 r2 in
-      match open_file "stops.txt" ["stop_id"] ms with
+      match tbl "stops.txt" ["stop_id"] with
       | Absent => Err "no stops.txt" | Bad => Err "stops.txt"
       | Rows h3 r3 =>
         let stops := parse_stops inherit h3 r3 in
-        match open_file "transfers.txt" ["from_stop_id"; "to_stop_id"] ms with
+        match tbl "transfers.txt" ["from_stop_id"; "to_stop_id"] with
         | Bad => Err "transfers.txt"
         | tf =>
           let transfers := match tf with Rows h r => parse_transfers stops h r | _ => [] end in
-          match open_file "calendar.txt" (["start_date"; "end_date"; "service_id"] ++ day_cols) ms with
+          match tbl "calendar.txt" (["start_date"; "end_date"; "service_id"] ++ day_cols) with
           | Bad => Err "calendar.txt"
           | cf =>
             let m1 := match cf with Rows h r => parse_calendar zone [] h r | _ => [] end in
-            match open_file "calendar_dates.txt" ["service_id"; "date"; "exception_type"] ms with
+            match tbl "calendar_dates.txt" ["service_id"; "date"; "exception_type"] with
             | Bad => Err "calendar_dates.txt"
             | cdf =>
               let services := services_of' (match cdf with Rows h r => parse_calendar_dates zone m1 h r | _ => m1 end) in
-              match open_file "shapes.txt" ["shape_id"; "shape_pt_lat"; "shape_pt_lon"; "shape_pt_sequence"] ms with
+              match tbl "shapes.txt" ["shape_id"; "shape_pt_lat"; "shape_pt_lon"; "shape_pt_sequence"] with
               | Bad => Err "shapes.txt"
               | sf =>
                 let shapes := match sf with Rows h r => parse_shapes' h r | _ => [] end in
-                match open_file "trips.txt" ["route_id"; "service_id"; "trip_id"] ms with
+                match tbl "trips.txt" ["route_id"; "service_id"; "trip_id"] with
                 | Absent => Err "no trips.txt" | Bad => Err "trips.txt"
                 | Rows h8 r8 =>
                   let trips := parse_trips routes services shapes h8 r8 in
-                  match open_file "frequencies.txt" ["trip_id"; "start_time"; "end_time"; "headway_secs"] ms with
+                  match tbl "frequencies.txt" ["trip_id"; "start_time"; "end_time"; "headway_secs"] with
                   | Bad => Err "frequencies.txt"
                   | ff =>
                     let trips := match ff with Rows h r => parse_frequencies trips h r | _ => trips end in
-                    match open_file "stop_times.txt" ["stop_id"; "stop_sequence"; "trip_id"] ms with
+                    match tbl "stop_times.txt" ["stop_id"; "stop_sequence"; "trip_id"] with
                     | Absent => Err "no stop_times.txt" | Bad => Err "stop_times.txt"
                     | Rows h10 r10 =>
                       Ok {| x_agencies := agencies; x_routes := routes; x_stops := stops; x_transfers := transfers; x_services := services;
@@ -418,6 +421,9 @@ Definition parse_static_gen (services_of' : list (string * service) -> list serv
       end
     end
   end.
+Definition parse_static_gen services_of' parse_shapes' parse_stop_times' (inherit : bool) (ms : list (string * string)) : outcome static :=
+  parse_tables_gen services_of' parse_shapes' parse_stop_times' inherit (fun name req => open_file name req ms).
+Definition parse_tables : bool -> tables -> outcome static := parse_tables_gen services_of parse_shapes parse_stop_times.
 Definition parse_static : bool -> list (string * string) -> outcome static := parse_static_gen services_of parse_shapes parse_stop_times.
 End Oracles.
 (* Stop.Root with explicit fuel on a result *)
